@@ -60,7 +60,7 @@ def shrink_budget(seconds=40):
             try:
                 return fn(self, case, ctx)
             except Exception as e:
-                if type(e).__name__ == "Violation" and state["t_fail"] is None and not getattr(ctx, "strict", False):
+                if type(e).__name__ in ("Violation", "Inconclusive") and state["t_fail"] is None and not getattr(ctx, "strict", False):
                     state["t_fail"] = time.time()
                 raise
         return wrapper
@@ -270,6 +270,7 @@ REFS = {
     "gotpcrel": ("got", False), "gotpcrelx": ("got", True), "got64": ("got", False),
     "call": ("plt", False), "jmp": ("plt", False), "gotcall": ("got", False), "gotjmp": ("got", False),
     "pltoff64": ("plt", False),
+    "viahelper": ("plt", False),     # call a trampoline in the helper DSO that jumps back to an exe-defined global
     "tpoff32m": ("tls", False), "tpoff32i": ("tls", False), "tpoff64d": ("tls", False),
     "gottpoff": ("tls", False), "gottpoff_add": ("tls", False), "tlsgd": ("tls", False),
     "tlsld": ("tls", False), "tlsdesc": ("tls", False),
@@ -277,7 +278,7 @@ REFS = {
 for _op in REXOPS:
     REFS["rexgot_" + _op] = ("got", False)
 REF_NAMES = list(REFS)
-FUNC_ONLY = {"call", "jmp", "gotcall", "gotjmp", "pltoff64"}
+FUNC_ONLY = {"call", "jmp", "gotcall", "gotjmp", "pltoff64", "viahelper"}
 DEREF_ONLY = {"abs32sm", "pc32m"}          # the instruction itself loads the value
 FLAG_OBS = {"rexgot_cmp", "rexgot_test"}   # observation is a flag (1), not an address
 DATA_SITE = {"abs64d", "abs32d", "pc32d", "pc64", "tpoff64d"}   # the relocation sits in a data section
@@ -345,6 +346,10 @@ def ref_ok(ref, t, mode, k=0):
         return False
     if t["kind"] == "abs" and ref == "got64" and mode in PIC_MODES:
         return False      # GNU ld: "R_X86_64_GOT64 against absolute symbol ... is disallowed" in PIE
+    if ref == "viahelper":
+        # the DSO looks the symbol up by name at run time: the executable's dynamic symbol table
+        # and hash table are exercised. Needs an exported (default visibility, strong) definition.
+        return mode in ("pie", "dyn") and kind == "func" and t["bind"] == "global"
     if ref in ("got64", "pltoff64") and t["bind"] == "local":
         return False      # gas turns sym@GOT/@PLTOFF on a local symbol into section+offset (G+A): not meaningful
     if cat == "tls":
@@ -374,7 +379,7 @@ def ref_ok(ref, t, mode, k=0):
         if ref == "abs32s":
             return v < (1 << 31) or v >= M64 + 1 - (1 << 31)
         if mode == "shared":
-            return ref == "rexgot_mov"        # GNU ld 2.40 hits a BFD assertion for other GOT forms on absolute symbols
+            return False                      # GNU ld 2.40 hits a BFD assertion for GOT forms on absolute symbols in -shared
         if cls == "got" and ref not in ("gotcall", "gotjmp"):
             return True
         return False
@@ -413,6 +418,10 @@ def fix_k(ref, t, k, modes):
         return 0          # hfunc: a canonical PLT entry may stand for the function; it has one entry point
     if t["kind"] == "str":
         return k % ((len(STRINGS[t["sid"]]) + 1) // 8)
+    if ref == "viahelper":
+        return 0
+    if ref == "pltoff64":
+        return 0          # the value is a PLT entry address when not relaxed: only its start is meaningful
     if cat == "func":
         k %= 2
         carries = REFS[ref][0] in ("abs", "pc", "plt")
@@ -435,7 +444,7 @@ class Program:
 
     def __init__(self, spec, modes):
         self.modes = tuple(modes)
-        self.ntu = max(1, min(6, spec["ntu"]))
+        self.ntu = max(2, min(6, spec["ntu"]))
         self.defs = []
         self.sites = []
         libc = all(m in LIBC_MODES for m in modes)
@@ -491,6 +500,8 @@ class Program:
                 t = self.defs[(r["tgt"] + off) % nd]
                 if t["bind"] == "local" and t["tu"] != tu:
                     continue
+                if t["kind"] == "abs" and t["tu"] == tu:
+                    continue      # gas folds a same-file absolute symbol instead of emitting a relocation
                 refs = [x for x in REF_NAMES if all(ref_ok(x, t, m, fix_k(x, t, k, modes)) for m in modes)]
                 if refs:
                     ref = refs[r["ref"] % len(refs)]
@@ -505,7 +516,7 @@ class Program:
 
     # -- queries ----------------------------------------------------------------------------------
     def uses_helper(self):
-        return any(self.defs[s["tgt"]]["kind"] in ("hfunc", "hdata", "htls") for s in self.sites)
+        return any(self.defs[s["tgt"]]["kind"] in ("hfunc", "hdata", "htls") or s["ref"] == "viahelper" for s in self.sites)
 
     def known_domains(self):
         """Signatures of known findings whose exact domain this program enters (for any of its modes)."""
@@ -723,6 +734,8 @@ class Program:
             if A:
                 return head + f"    mov {T}@GOTPCREL(%rip), %rax\n    add ${A}, %rax\n    jmp *%rax\n"
             return head + f"    jmp *{T}@GOTPCREL(%rip)\n"
+        if ref == "viahelper":
+            return head + f"    sub $8, %rsp\n    call vh_{T}@PLT\n    add $8, %rsp\n    ret\n"
         if ref == "pltoff64":
             return head + (f"    sub $8, %rsp\n    lea _GLOBAL_OFFSET_TABLE_(%rip), %rcx\n    movabs ${T}@PLTOFF, %rax\n"
                            f"    add %rcx, %rax\n" + (f"    add ${A}, %rax\n" if A else "") +
@@ -794,6 +807,13 @@ class Program:
                 s.append(f'    .section .tdata,"awT",@progbits\n    .balign 8\n    .globl {d["name"]}\n    .type {d["name"]},@object\n'
                          f'{d["name"]}:\n' + "".join(f"    .quad {(d['id'] << 8) | k}\n" for k in range(4)) +
                          f"    .size {d['name']}, 32\n")
+        done = set()
+        for st_ in self.sites:
+            if st_["ref"] == "viahelper":
+                T = self.defs[st_["tgt"]]["name"]
+                if T not in done:
+                    done.add(T)
+                    s.append(f"    .text\n    .globl vh_{T}\n    .type vh_{T},@function\nvh_{T}:\n    jmp *{T}@GOTPCREL(%rip)\n")
         s.append(NOTE_GNU_STACK)
         return "".join(s)
 
@@ -819,12 +839,12 @@ def realise(spec, modes):
     return Program(spec, modes)
 
 
-def program_strategy(max_defs=10, max_sites=12, def_kinds=None):
+def program_strategy(max_defs=10, max_sites=12, def_kinds=None, ntu=(2, 4)):
     from hypothesis import strategies as st
     kinds = def_kinds or DEF_KINDS
     d = st.fixed_dictionaries({"tu": st.integers(0, 5), "kind": st.sampled_from(kinds), "bind": st.sampled_from(BINDS),
                                "pad": st.integers(0, 2), "aux": st.integers(0, 23), "dup": st.sampled_from([0, 0, 0, 1, 2])})
     s = st.fixed_dictionaries({"tu": st.integers(0, 5), "ref": st.integers(0, 63), "tgt": st.integers(0, 39),
                                "k": st.integers(0, 3), "aux": st.integers(0, 7)})
-    return st.fixed_dictionaries({"ntu": st.integers(2, 4), "defs": st.lists(d, min_size=2, max_size=max_defs),
+    return st.fixed_dictionaries({"ntu": st.integers(*ntu), "defs": st.lists(d, min_size=2, max_size=max_defs),
                                   "sites": st.lists(s, min_size=1, max_size=max_sites)})
